@@ -377,32 +377,28 @@ func rule084(r *core.Run) {
 				continue
 			}
 			eof, neq := false, false
-			for _, g := range core.GuardsOf(ret) {
-				gs := r.P.SliceOf(g.If.Cond, core.SliceOpts{Depth: -1})
-				cd := core.CondOf(g.If.Cond)
-				truth := g.Branch != cd.Neg
-				if eq, ok := g.Equality(); gs.Has("global:io.EOF") && ok && eq {
-					eof = true
-				}
-				if c, ok := cd.X.(*ssa.Call); ok && r.P.CalleeName(c) == "bytes.Equal" && !truth {
-					as := r.P.SliceOfMany(c.Call.Args, core.SliceOpts{Depth: -1})
-					if as.Has("field:gofakes3.hashingReader.expected") && (as.Has("field:gofakes3.hashingReader.sum") || as.Has("call:invoke:hash.Hash.Sum")) {
+			extra := false
+			for _, ec := range expandedConds(ret) {
+				gs := r.P.SliceOf(ec.cond, core.SliceOpts{Depth: -1})
+				cd := core.CondOf(ec.cond)
+				truth := ec.truth != cd.Neg
+				if a, b, eq, ok := byteCompare(r, ec.cond, ec.truth); ok {
+					as := r.P.SliceOfMany([]ssa.Value{a, b}, core.SliceOpts{Depth: -1})
+					if !eq && as.Has("field:gofakes3.hashingReader.expected") && (as.Has("field:gofakes3.hashingReader.sum") || as.Has("call:invoke:hash.Hash.Sum")) {
 						neq = true
 					}
+					continue
 				}
-			}
-			// no further condition may stand between EOF and the comparison
-			extra := false
-			for _, g := range core.GuardsOf(ret) {
-				gs := r.P.SliceOf(g.If.Cond, core.SliceOpts{Depth: -1})
-				cd := core.CondOf(g.If.Cond)
 				switch {
 				case gs.Has("global:io.EOF"):
-				case (cd.Op == token.NEQ || cd.Op == token.EQL) && (core.IsNilConst(cd.Y) || core.IsNilConst(cd.X)) && (gs.Has("field:gofakes3.hashingReader.expected") || gs.HasValue(core.ErrorResult(inner)) || isErrTyped(cd.X) || isErrTyped(cd.Y)):
-				default:
-					if c, ok := cd.X.(*ssa.Call); ok && r.P.CalleeName(c) == "bytes.Equal" {
-						continue
+					if (cd.Op == token.EQL && truth) || (cd.Op == token.NEQ && !truth) {
+						eof = true
 					}
+				case (cd.Op == token.NEQ || cd.Op == token.EQL) && (core.IsNilConst(cd.Y) || core.IsNilConst(cd.X)) && (gs.Has("field:gofakes3.hashingReader.expected") || gs.HasValue(core.ErrorResult(inner)) || isErrTyped(cd.X) || isErrTyped(cd.Y)):
+					// nil tests of the error or of the expected digest
+				case ec.merged:
+					// the flag that merges the tests above
+				default:
 					extra = true
 				}
 			}
@@ -416,45 +412,49 @@ func rule084(r *core.Run) {
 	}
 }
 
-// innerErrPropagates: on the err != nil arm of the inner read every return carries a non-nil error.
+// innerErrPropagates: the error of the inner read cannot be swallowed — after the
+// read, a return with a nil error is only reachable where that error is known
+// to be nil, and some return hands the error itself on. (Shape-agnostic: nested
+// `if err != nil { if err == io.EOF … }`, or `if err == io.EOF {…}; return n, err`.)
 func innerErrPropagates(r *core.Run, fn *ssa.Function, inner *ssa.Call) bool {
 	errv := core.ErrorResult(inner)
 	if errv == nil {
 		return false
 	}
-	ok := true
-	found := false
+	carried := false
 	for ret, ev := range returnedErrors(fn) {
+		if !core.Reaches(inner, ret) {
+			continue
+		}
+		es := r.P.SliceOf(ev, core.SliceOpts{Depth: -1})
+		if es.HasValue(errv) {
+			carried = true
+		}
+		if !definitelyNil(r, ev) {
+			continue
+		}
+		knownNil := false
 		for _, g := range core.GuardsOf(ret) {
-			if isNil, known := core.ErrNilFact(g, errv); known && !isNil {
-				found = true
-				if definitelyNil(r, ev) {
-					ok = false
+			if isNil, known := core.ErrNilFact(g, errv); known && isNil {
+				knownNil = true
+			}
+			// named-result variants: a nil test of a value that carries the inner error
+			cd := core.CondOf(g.If.Cond)
+			if (cd.Op == token.EQL || cd.Op == token.NEQ) && (core.IsNilConst(cd.Y) || core.IsNilConst(cd.X)) {
+				x := cd.X
+				if core.IsNilConst(x) {
+					x = cd.Y
+				}
+				if eq, ok := g.Equality(); ok && eq && r.P.SliceOf(x, core.SliceOpts{Depth: -1}).HasValue(errv) {
+					knownNil = true
 				}
 			}
 		}
-		// named-result variants: the guard is on a load of the result variable — covered by aliases in ErrNilFact? fall back to slice
-		_ = ret
-	}
-	if !found {
-		// named results: look for guards on any value whose slice is exactly the inner error
-		for ret, ev := range returnedErrors(fn) {
-			for _, g := range core.GuardsOf(ret) {
-				cd := core.CondOf(g.If.Cond)
-				if cd.Op != token.NEQ || !core.IsNilConst(cd.Y) || !g.Branch {
-					continue
-				}
-				s := r.P.SliceOf(cd.X, core.SliceOpts{Depth: -1})
-				if s.HasValue(errv) {
-					found = true
-					if definitelyNil(r, ev) {
-						ok = false
-					}
-				}
-			}
+		if !knownNil {
+			return false
 		}
 	}
-	return found && ok
+	return carried
 }
 
 func rule085(r *core.Run, ctx *oblig.Ctx) {
